@@ -142,6 +142,10 @@ func checkMain(args []string) int {
 			results = append(results, &FuncResult{Name: name, Contract: con, Err: "function not found in the current tree (contract cannot be bound)"})
 			continue
 		}
+		if con.Inline {
+			// loop invariants for a closure that is executed in place inside its parent: verified there, not on its own
+			continue
+		}
 		results = append(results, VerifyFunc(P, C, fn, con))
 	}
 	for _, lm := range C.Lemmas {
